@@ -309,6 +309,30 @@ PROPS = {
         "not_decided": ["same DAG after decoding (sharing, hidden nodes, type inference)", "encode_program / encode_witness loops", "cmr/ihr/amr/arrow equality after the round trip", "witness values bit-for-bit"],
         "explanation": "",
     },
+    "C09": {
+        "units": ["cmr"],
+        "native_cex": "c09_cmr_replay",
+        "kani": {"quick": [], "thorough": []},
+        "level": "proof",
+        "level_text": "Deductive proof (Verus) with the hash compression function and the IV constants uninterpreted: each of Cmr's constructors (src/merkle/cmr.rs) applies the IV of its own "
+                      "name to exactly its arguments; every way src/node/mod.rs builds a node (the 16 CoreConstructible constructors, disconnect, witness, Node::from_parts) stores "
+                      "cmr_of(combinator, children's roots, committed payload) - a function in which the witness value, the disconnected branch and all type information do not occur, and in "
+                      "which assertl/assertr use case's function on (root, hidden root); ConstructibleCmr (roots 'from scratch', e.g. Policy::cmr) and Hiding<N> (sub-expressions replaced by "
+                      "hidden nodes carrying their roots, src/node/hiding.rs) satisfy the same per-constructor laws, which are stated once on the construction traits and checked for all three "
+                      "implementations; Hiding::hide keeps the root.",
+        "level_note": "SHA-256 is not modelled: `upd1/upd2/upd_entropy/mroot` and the IVs are uninterpreted, so 'equals the tagged hash' is decided only up to WHICH named IV and which arguments are "
+                      "used, and 'different structures get different roots' (collision resistance) is not decided. Assumed: Cmr::const_word is a function of the word; Jet::cmr; the cached-data "
+                      "constructors are total. NOT decided: Node::convert and the finalisation paths copy the root (generic converter, post-order loop); named-node / human-encoding conversions; "
+                      "Policy::commit().cmr() == Policy::cmr() (needs the policy serialisation); type inference does not touch roots (roots are never written after construction - a "
+                      "whole-module argument, not a contract).",
+        "assumptions": [
+            "SHA-256 compression, midstate packing and the IV constants are uninterpreted functions / named constants",
+            "Cmr::const_word(word) and Jet::cmr are functions of the word / jet alone",
+            "cached-data constructors (N::CachedData::*) are total and carry no root",
+        ],
+        "not_decided": ["collision clause (different structures get different roots)", "IV bytes equal the tagged hashes", "Node::convert / finalize copy the root", "Policy::cmr == Policy::commit().cmr()", "named-node conversions"],
+        "explanation": "",
+    },
 }
 
 NOT_APPLICABLE = [
